@@ -82,28 +82,6 @@ fn check_history(lines: &[Line], rec: &mut Rec) -> Verdict {
                 if continues && held + f.payload.len() > CAP_SENTENCE {
                     sentence_level = true;
                 }
-                if l.decode && !sentence_level {
-                    let full: Option<Vec<u8>> = match &p {
-                        Pred::Single => Some(f.payload.clone()),
-                        Pred::Deliver(d) => Some(d.clone()),
-                        Pred::Unspecified(_) => {
-                            // whatever the implementation delivered
-                            match &on {
-                                Outcome::Complete(s) => Some(s.data.clone()),
-                                _ => match &os {
-                                    Outcome::Complete(s) => Some(s.data.clone()),
-                                    _ => None,
-                                },
-                            }
-                        }
-                        _ => None,
-                    };
-                    if let Some(d) = full {
-                        if let Some(bytes) = armor::unarmor(&d, f.fill as usize) {
-                            decode_level = decode_exceeds(&bytes);
-                        }
-                    }
-                }
                 pred = Some((p, f.clone()));
             }
         }
@@ -124,6 +102,15 @@ fn check_history(lines: &[Line], rec: &mut Rec) -> Verdict {
         }
         let ov = ps_view.parse(&l.bytes, l.decode);
         rec.evals += 1;
+        // decode-level capacity: judged on the payload the message is decoded from (the line's own,
+        // or the reassembled one as the std build fed the same accepted lines delivers it)
+        if l.decode {
+            if let (Outcome::Complete(s), Gate::Pass(f)) = (&ov, &g) {
+                if let Some(bytes) = armor::unarmor(&s.data, f.fill as usize) {
+                    decode_level = decode_exceeds(&bytes);
+                }
+            }
+        }
         if let Some((p, f)) = &pred {
             model.commit(p, f.num_fragments, f.fragment_number, f.message_id, &f.payload, seen(&on));
         } else if let Gate::StarInField(_) = &g {
